@@ -243,7 +243,7 @@ def asset_tables(ctx: Ctx) -> None:
             continue
         got = {_preset_norm(x) for x in d.get("presets")}
         ctx.expect("R-TABLE", ("simfile.assets", ""), f"patterns of {key} == documented patterns", got == spec and not d.get("match_by_extension"), str(sorted(got)), f"{key} presets normalise to {sorted(got)}; documented {sorted(spec)}")
-        ctx.expect("R-TABLE", ("simfile.assets", ""), f"{key} presets are lower-case (the stem is lower-cased before matching)", all(x == x.lower() for x in d.get("presets")), "", "")
+        ctx.expect("R-TABLE", ("simfile.assets", ""), f"{key} presets are lower-case (the stem is lower-cased before matching)", all(_preset_norm(x)[1] == _preset_norm(x)[1].lower() for x in d.get("presets")), "", "")
     m = defs.get("MUSIC")
     okm = isinstance(m, RecordVal) and m.get("match_by_extension") is True and tuple(m.get("extensions")) == audio and not m.get("presets")
     ctx.expect("R-TABLE", ("simfile.assets", ""), "MUSIC matches by audio extension only", okm, "", str(m))
